@@ -51,6 +51,11 @@ for _s in ("terms", "goals", "strings", "mutants"):
 JOBS["reader-layout"] = dict(module="MC_Reader", constants={"Slice": "layout"}, invariants=["ReaderCorrect", "AllLegal", "Emit"],
                              timeout={"quick": 900, "thorough": 3600})
 
+JOBS["session"] = dict(module="MC_Session", constants=dict(Slice="session", Depth=12, MaxSteps=6000, Bug_ClauseLoopIgnoresCut="FALSE",
+                                                           Bug_OrTailAfterCut="FALSE", Bug_NotStaysArmed="FALSE", Bug_StaleStopFlag="FALSE"),
+                       subst=BIP_SUBST, invariants=["EachRunIsItsOwnSLD", "Terminates", "Emit"], constraint="WithinBudget",
+                       timeout={"quick": 1200, "thorough": 3600})
+
 UNIFY_ASSUME = [
     "pairs whose unification needs an occurs check are generated but excluded (counted under excluded_cases)",
     "the universe is bounded: terms of depth <= 2 over 2 atoms, 1 integer, 2 floats, 3 variables, $_, f/1 g/2 h/0, lists of <= 3 elements with and without tail",
@@ -90,6 +95,10 @@ PROPS = {
     "C21": dict(jobs=["reader-layout"], level="model_checking",
                 rule="8 programs of 1-3 rules (facts with spaces in atoms, float literals, infix = + - > >= <, lists, disjunction, short facts) x every layout with at most 2 (thorough 3) deviations from one-rule-per-line: line break / indented break / tab / blank line after any continuation character, two rules on one line, trailing # % // comments and comment lines outside brackets; TLC runs the Reader machine over each layout (ReaderCorrect) and the real loader must produce the knowledge base of parse_rule on each rule",
                 assumptions=["pieces (where a line may legally end) are written out per rule in MC_Reader.tla; the harness joins them with single spaces to obtain the canonical rule text"]),
+    "C22": dict(jobs=["session"], level="model_checking",
+                rule="all histories of 1-2 (thorough 3) episodes over 4-6 queries x 8-14 call lists (next_solution x4 incl. re-asks after exhaustion, solve x3, solve_all, mixes, and solve / solve_all calls during which the query timer fires before the 1st..5th count_rules()); every query is built with make_query + make_base_node only; TLC checks EachRunIsItsOwnSLD on Session.tla and the history is replayed with the virtual timer hook",
+                assumptions=["a query is not resumed after a later query has been built", "calls made on a query after one of its own calls timed out are unconstrained",
+                             "the timer's firing point is virtual (a hook in count_rules()); real-time firing is covered by the C23 timer slices"]),
     "C06": dict(jobs=["unify-laws", "unify-plain", "unify-sess"], level="model_checking",
                 rule="every ordered pair of universe terms x every prior substitution (and every session of 2-3 unifications), enumerated by TLC; "
                      "non-trivial = the Unify machine takes at least one deref/bind/decompose/list step; distinct by (terms, prior)",
